@@ -127,7 +127,19 @@ pub fn gen_case(g: &mut Gen) -> Case {
     nodes.append(&mut t.nodes);
     let tests = gen_tests(g, &names);
     let md = |g: &mut Gen| if g.chance(1, 5) { Some(g.usize_in(0, 3)) } else { None };
-    Case { tree: TreeSpec { nodes }, follow, tests, mindepth: md(g), maxdepth: md(g), via_binary: g.chance(1, 20), explicit_depth: g.chance(1, 4), roots }
+    let (mut mindepth, maxdepth) = (md(g), md(g));
+    // under -H (and -L) the tree may be entered through a link given as starting point; the link
+    // itself is kept out of the removals (-mindepth >= 1): how it should go is not the statement's subject
+    if follow != 0 && g.chance(1, 6) {
+        nodes.push(Node::new("c/tl", Kind::Link("t".into())));
+        for r in roots.iter_mut() {
+            if r == "c/t" {
+                *r = "c/tl".into();
+            }
+        }
+        mindepth = Some(mindepth.unwrap_or(1).max(1));
+    }
+    Case { tree: TreeSpec { nodes }, follow, tests, mindepth, maxdepth, via_binary: g.chance(1, 20), explicit_depth: g.chance(1, 4), roots }
 }
 
 fn lines(b: &[u8]) -> Vec<String> {
@@ -192,6 +204,10 @@ pub fn check(ctx: &mut Ctx, c: &Case) -> Outcome {
             let (es, evs) = ref_paths(r, &wo);
             reference.extend(es.into_iter().map(|e| e.path));
             loops |= !evs.is_empty();
+        }
+        if !loops && reference != visited && flag == "-H" && roots.iter().any(|r| r == "c/tl") {
+            // walkdir's contents-first bookkeeping for a followed root link (see C02/C03)
+            return fail("C10:-H:starting-point-is-link-to-directory", format!("find {}\nreference walk {reference:?}\nvisited        {visited:?}", a_all.join(" ")));
         }
         if !loops && reference != visited {
             let extra: Vec<&String> = visited.iter().filter(|v| !reference.contains(v)).take(5).collect();
